@@ -253,6 +253,30 @@ def ref_patches(px, centres, shape, offsets, cval, mode):
     return out, tie
 
 
+def ref_patches_bilinear(px, centres, shape, offsets, cval, mode):
+    """Reference order-1 sampler (no scipy): bilinear between the four neighbours; a location outside the image takes the fill value
+    exactly ('constant': nothing is blended with it) or is moved onto the border ('nearest')."""
+    ph, pw = shape
+    C, H, W = px.shape
+    P = np.asarray(px, dtype=float)
+    offs = np.zeros((1, 2)) if offsets is None else np.asarray(offsets, dtype=float)
+    out = np.empty((len(centres), len(offs), C, ph, pw))
+    for i, c in enumerate(centres):
+        for j, o in enumerate(offs):
+            r = (c[0] + o[0] + delta(ph))[:, None] * np.ones((1, pw))
+            q = (c[1] + o[1] + delta(pw))[None, :] * np.ones((ph, 1))
+            outside = (r < 0) | (r > H - 1) | (q < 0) | (q > W - 1)
+            rc, qc = np.clip(r, 0, H - 1), np.clip(q, 0, W - 1)
+            r0, q0 = np.minimum(np.floor(rc).astype(int), max(H - 2, 0)), np.minimum(np.floor(qc).astype(int), max(W - 2, 0))
+            r1, q1 = np.minimum(r0 + 1, H - 1), np.minimum(q0 + 1, W - 1)
+            fr, fq = rc - r0, qc - q0
+            v = (P[:, r0, q0] * (1 - fr) * (1 - fq) + P[:, r1, q0] * fr * (1 - fq) + P[:, r0, q1] * (1 - fr) * fq + P[:, r1, q1] * fr * fq)
+            if mode == "constant":
+                v = np.where(outside[None], float(cval), v)
+            out[i, j] = v
+    return out
+
+
 class PatchMonitor(taps.Monitor):
     name = "extract_patches"
 
@@ -313,6 +337,16 @@ class PatchMonitor(taps.Monitor):
                     mech = "64bit_integers_beyond_2**53_rounded_through_double"
                 ctx.fail("patch_values_differ_from_nearest_neighbour_reference", cls=cls if "rounded_through_double" not in mech else "Image", mech=mech, first_bad=bad[0].tolist(), n_bad=int(len(bad)),
                          image_shape=[H, W], patch_shape=[ph, pw], centre=st["centres"][bad[0][0]].tolist())
+        elif st["order"] == 1 and st["px"].dtype.kind == "f" and np.isfinite(st["px"]).all() and np.isfinite(float(st["cval"])) and min(st["px"].shape[1:]) >= 2:
+            # order 1: bilinear inside; outside the image the fill value, unblended
+            exp = ref_patches_bilinear(st["px"], st["centres"], (ph, pw), offs, st["cval"], st["mode"])
+            got = np.asarray(res, dtype=float)
+            tol = (1e-9 if st["px"].dtype == np.float64 else 1e-5) * max(1.0, float(np.abs(st["px"]).max()), abs(float(st["cval"])))
+            ctx.tap("bilinear_reference", "calls"); ctx.tap("bilinear_reference", "checked")
+            if not (np.abs(got - exp).max() <= tol):
+                bad = np.argwhere(np.abs(got - exp) > tol)
+                ctx.fail("patch_values_differ_from_the_bilinear_reference", cls=cls, mech=mech, first_bad=bad[0].tolist(), n_bad=int(len(bad)), err=float(np.abs(got - exp).max()),
+                         centre=st["centres"][bad[0][0]].tolist())
         ctx.see("patch_kinds", (cls, min(C, 5), str(st["px"].dtype), (ph % 2, pw % 2, ph == pw), st["order"], st["mode"], offs is not None))
 
 
